@@ -12,6 +12,10 @@ import Driver.Proto
            card = i (implicit) e (explicit) o<g> (oneof g) r (required) a (always) l (list) p (packed) m (map)
   value  : tokens separated by blanks:  message = `{` field* `}` `u<hex>`;
            field = `_` | `n<dec>` | `h<hex>` | message | `[` (n.. | h.. | message)* `]`
+           An entry of a map field is a message of the entry type: `{ <key> <value> } u-`.  A Go entry whose message
+           value is a nil pointer is `{ <key> _ } u-` (`_` in value position, `F.unset`): the model passes it over
+           in `Size` and `Marshal` as the generated code does.  (The harness sends such an entry when it has set a
+           map value to nil; values without one are rendered as before.)
 -/
 namespace Csproto.Driver
 open Csproto Csproto.Proto Csproto.Gen
